@@ -216,7 +216,7 @@ fn tweak_key_mostly_exact(rng: &mut Rng, keys: &[Vec<u8>]) -> Vec<u8> {
 fn gen_maint(rng: &mut Rng, profile: &str) -> Op {
     let w = rand_wm(rng);
     let moves = profile == "moves";
-    match rng.below(if moves { 24 } else { 20 }) {
+    match rng.below(if moves { 30 } else { 20 }) {
         0..=3 => Op::Rotate,
         4..=6 => Op::Flush(w),
         7..=10 => Op::FlushActive(w),
@@ -234,13 +234,14 @@ fn gen_maint(rng: &mut Rng, profile: &str) -> Op {
             w,
         },
         18 | 19 => Op::Rotate,
-        20 | 21 => {
-            let a = rng.range(0, 5) as u8;
+        20..=24 => {
+            // mostly out of L0 (several overlapping runs), otherwise from any level
+            let a = if rng.chance(1, 2) { 0 } else { rng.range(0, 5) as u8 };
             let b = rng.range(u64::from(a) + 1, 6) as u8;
             Op::MoveDown(a, b)
         }
         _ => {
-            let a = rng.range(0, 5) as u8;
+            let a = if rng.chance(1, 2) { 0 } else { rng.range(0, 5) as u8 };
             let b = rng.range(u64::from(a) + 1, 6) as u8;
             Op::PullDown(a, b)
         }
